@@ -290,8 +290,8 @@ def check(case: dict[str, Any]) -> list[tuple[str, str]]:
     replies = sorted(r["box"]["alive_replies"])
     t_end = closed_at if closed_at is not None else r["box"]["t_end"]
     for f, c in zip(frames, cls):
-        if c["k"] != "alive" or f.t_done > t_end:
-            continue
+        if c["k"] != "alive" or f.t_done > t_end - 0.005:
+            continue  # after, or in a tie with, the instant the client closed the connection (acknowledgement timeout)
         hit = next((x for x in replies if f.t_done - 1e-9 <= x[0] <= f.t_done + ALIVE_TIME), None)
         if hit is None:
             phase = "idle"
